@@ -230,4 +230,5 @@ func genExtra() {
 	genC06()
 	genC10()
 	genC11()
+	genC20()
 }
